@@ -338,7 +338,7 @@ func (f *frame) backEdge(from, h *ssa.BasicBlock) {
 					continue
 				}
 				goal := v.trClause(env, cl)
-				v.pend("inv-keep", fmt.Sprintf("%s/inv-keep#%d.%d", v.fc.Key, li.ord, cl.Ord), cl.Tags, reach, goal, v.pos(firstPos(h)), cl.Src)
+				v.oblige("inv-keep", fmt.Sprintf("%s/inv-keep#%d.%d@%d", v.fc.Key, li.ord, cl.Ord, li.edges), cl.Tags, reach, goal, v.pos(firstPos(h)), cl.Src)
 			case "decreases":
 				now := env.term(cl.E)
 				goal := T(SBool, "(and (>= %s 0) (< %s %s))", li.decAt.S, now.S, li.decAt.S)
@@ -346,6 +346,7 @@ func (f *frame) backEdge(from, h *ssa.BasicBlock) {
 			}
 		}
 	}
+	li.edges++
 	// re-establish the auto frame invariant
 	for _, name := range li.modArrs {
 		s, ok := v.arrSort[name]
